@@ -3,6 +3,7 @@ from __future__ import annotations
 
 import asyncio
 import itertools
+import json
 
 from streamflow.core.workflow import Port, Status, Token
 from streamflow.workflow.port import BoundaryAction, FilterTokenPort, InterWorkflowPort
@@ -31,7 +32,11 @@ def _opstr(op) -> str:
     if op[0] in ("g", "c"):
         return f"{op[0]}:{op[1]}"
     if op[0] == "a":
-        return f"a:{op[1]}:{op[2]}:{op[3]}:{','.join(map(str, op[4])) or '-'}"
+        opts = op[5] if len(op) > 5 else {}
+        extra = "".join(f"[{k}={v}]" for k, v in sorted(opts.items()))
+        return f"a:{op[1]}:{op[2]}:{op[3]}:{','.join(map(str, op[4])) or '-'}{extra}"
+    if op[0] == "b":
+        return "B." + _opstr(op[1])
     raise ValueError(op)
 
 
@@ -44,104 +49,143 @@ def model_line(case) -> str:
     return f"iw {ops}".rstrip()
 
 
-async def _exec(case) -> dict:
-    """run one history on the REAL port classes. Returns the effective history (ops really issued) and the
-    observation in the driver's output format."""
-    kind, ops, disc = case["kind"], case["ops"], case.get("disc", False)
-    exts = [Port(None, f"e{k}") for k in range(NEXT)]
-    if kind == "plain":
-        port = Port(None, "p")
-    elif kind == "filter":
-        admitted = {TAGS[i] for i in case["admit"]}
-        port = FilterTokenPort(None, "p", filter_function=lambda t: t.tag in admitted)
-    else:
-        port = InterWorkflowPort(None, "p")
-    recv: dict[int, list] = {}
-    pending: dict[int, tuple] = {}
-    err: dict[int, bool] = {}
-    eff = []
-    put_objs = []
-    closes = []
+class _Rig:
+    """one real port with its boundary ports, consumers and the effective history issued on it"""
 
-    def name(c):
+    def __init__(self, kind, case, name):
+        self.kind, self.disc = kind, case.get("disc", False)
+        self.exts = [Port(None, f"{name}-e{k}") for k in range(NEXT)]
+        if kind == "plain":
+            self.port = Port(None, name)
+        elif kind == "filter":
+            admitted = {TAGS[i] for i in case["admit"]}
+            self.port = FilterTokenPort(None, name, filter_function=lambda t: t.tag in admitted)
+        else:
+            self.port = InterWorkflowPort(None, name)
+        self.recv: dict[int, list] = {}
+        self.pending: dict[int, tuple] = {}
+        self.err: dict[int, bool] = {}
+        self.eff, self.put_objs, self.closes = [], [], []
+
+    @staticmethod
+    def cname(c):
         return f"/step{c}/in"
 
-    async def settle():
+    async def settle(self):
         for _ in range(3):
             await asyncio.sleep(0)
-        for c, (task, _first) in list(pending.items()):
+        for c, (task, _first) in list(self.pending.items()):
             if task.done():
-                del pending[c]
+                del self.pending[c]
                 try:
-                    recv[c].append(task.result())
+                    self.recv[c].append(task.result())
                 except ValueError:
-                    err[c] = True
+                    self.err[c] = True
 
-    async def do_get(c):
-        first = name(c) not in port.queues
-        recv.setdefault(c, [])
-        pending[c] = (asyncio.create_task(port.get(name(c))), first)
-        await settle()
+    async def do_get(self, c):
+        first = self.cname(c) not in self.port.queues
+        self.recv.setdefault(c, [])
+        self.pending[c] = (asyncio.create_task(self.port.get(self.cname(c))), first)
+        await self.settle()
 
-    for op in ops:
+    async def apply(self, op, shared):
+        port = self.port
         if op[0] == "p":
             tok = TerminationToken(Status(op[3])) if op[1] else Token(value=op[3], tag=TAGS[op[2]])
-            put_objs.append(tok)
+            self.put_objs.append(tok)
             port.put(tok)
-            eff.append(op)
-            await settle()
+            self.eff.append(op[:4])
+            await self.settle()
         elif op[0] == "g":
             c = op[1]
-            if c in pending or err.get(c):
-                continue
-            if disc and any(isinstance(t, TerminationToken) for t in recv.get(c, [])):
-                continue  # the read discipline of every step: stop after the termination token
-            eff.append(op)
-            await do_get(c)
+            if c in self.pending or self.err.get(c):
+                return
+            if self.disc and any(isinstance(t, TerminationToken) for t in self.recv.get(c, [])):
+                return  # the read discipline of every step: stop after the termination token
+            self.eff.append(op)
+            await self.do_get(c)
         elif op[0] == "c":
-            eff.append(op)
-            closes.append([op[1], name(op[1]) in port.queues, len(recv.get(op[1], []))])
+            self.eff.append(op)
+            self.closes.append([op[1], self.cname(op[1]) in port.queues, len(self.recv.get(op[1], []))])
             try:
-                port.close(name(op[1]))
+                port.close(self.cname(op[1]))
             except ValueError:
-                err[op[1]] = True
+                self.err[op[1]] = True
         elif op[0] == "a":
-            target = port if op[1] == "s" else exts[int(op[1][1:])]
+            target = port if op[1] == "s" else self.exts[int(op[1][1:])]
             action = BoundaryAction(0)
             if op[2]:
                 action |= BoundaryAction.PROPAGATE
             if op[3]:
                 action |= BoundaryAction.TERMINATE
-            port.add_inter_port(target, [TAGS[i] for i in op[4]], action)
-            eff.append(op)
-            await settle()
-    # final drain: every consumer that subscribed asks for everything that is in the log
-    drained_ok = True
-    for c in sorted(recv):
-        guard = 0
-        while c not in pending and not err.get(c) and len(recv[c]) < len(port.token_list) and guard < 200:
-            if disc and any(isinstance(t, TerminationToken) for t in recv[c]):
-                break
-            guard += 1
-            eff.append(["g", c])
-            await do_get(c)
-        if c in pending and len(recv[c]) < len(port.token_list):
-            drained_ok = False
-    cons = {}
-    for c in sorted(recv):
-        q = port.queues[name(c)]
-        w = "n" if c not in pending else ("f" if pending[c][1] else "l")
-        cons[c] = {"recv": [_tokstr(t) for t in recv[c]], "items": q.qsize(), "unf": q._unfinished_tasks, "wait": w,
-                   "err": 1 if err.get(c) else 0,
-                   "same_objects": all(a is b for a, b in zip(recv[c], port.token_list))}
-    for task, _ in pending.values():
-        task.cancel()
-    obs = {"log": [_tokstr(t) for t in port.token_list], "cons": cons, "drained_ok": drained_ok,
-           "puts": [_tokstr(t) for t in put_objs], "closes": closes}
-    if kind == "iw":
-        obs["ext"] = [[_tokstr(t) for t in e.token_list] for e in exts]
-        obs["rules"] = [[TAGS.index(t) for t in b.tags] for b in port.boundaries]
-    return {"eff": eff, "obs": obs}
+            opts = op[5] if len(op) > 5 else {}
+            if "share" in opts:
+                # the caller passes the SAME list object to several add_inter_port calls (possibly on different ports)
+                lst = shared.setdefault(opts["share"], [TAGS[i] for i in op[4]])
+            else:
+                lst = [TAGS[i] for i in op[4]]
+            by_value = [TAGS.index(t) for t in lst]          # what the call means: the tags at call time
+            port.add_inter_port(target, lst, action)
+            if opts.get("mutate") == "clear":                # the caller goes on using (mutating) its own list
+                lst.clear()
+            elif opts.get("mutate") == "pop" and lst:
+                lst.pop()
+            elif opts.get("mutate") == "append":
+                lst.append(TAGS[0])
+            self.eff.append(["a", op[1], op[2], op[3], by_value])
+            await self.settle()
+
+    async def drain(self):
+        """every consumer that subscribed asks for everything that is in the log"""
+        ok = True
+        for c in sorted(self.recv):
+            guard = 0
+            while (c not in self.pending and not self.err.get(c) and len(self.recv[c]) < len(self.port.token_list)
+                   and guard < 200):
+                if self.disc and any(isinstance(t, TerminationToken) for t in self.recv[c]):
+                    break
+                guard += 1
+                self.eff.append(["g", c])
+                await self.do_get(c)
+            if c in self.pending and len(self.recv[c]) < len(self.port.token_list):
+                ok = False
+        return ok
+
+    def observe(self, drained_ok):
+        port, cons = self.port, {}
+        for c in sorted(self.recv):
+            q = port.queues[self.cname(c)]
+            w = "n" if c not in self.pending else ("f" if self.pending[c][1] else "l")
+            cons[c] = {"recv": [_tokstr(t) for t in self.recv[c]], "items": q.qsize(), "unf": q._unfinished_tasks, "wait": w,
+                       "err": 1 if self.err.get(c) else 0,
+                       "same_objects": all(a is b for a, b in zip(self.recv[c], port.token_list))}
+        for task, _ in self.pending.values():
+            task.cancel()
+        obs = {"log": [_tokstr(t) for t in port.token_list], "cons": cons, "drained_ok": drained_ok,
+               "puts": [_tokstr(t) for t in self.put_objs], "closes": self.closes}
+        if self.kind == "iw":
+            obs["ext"] = [[_tokstr(t) for t in e.token_list] for e in self.exts]
+            obs["rules"] = [[TAGS.index(t) for t in b.tags] for b in port.boundaries]
+        return obs
+
+
+async def _exec(case) -> dict:
+    """run one history on the REAL port classes. Returns the effective history (ops really issued, tags of
+    add_inter_port by value) and the observation in the driver's output format; ops `["b", op]` go to a second
+    inter-workflow port (used to share tag-list objects between ports)."""
+    kind = case["kind"]
+    rig = _Rig(kind, case, "p")
+    twin = _Rig("iw", case, "q") if any(op[0] == "b" for op in case["ops"]) else None
+    shared: dict = {}
+    for op in case["ops"]:
+        if op[0] == "b":
+            await twin.apply(op[1], shared)
+        else:
+            await rig.apply(op, shared)
+    res = {"eff": rig.eff, "obs": rig.observe(await rig.drain())}
+    if twin is not None:
+        res["twin"] = {"eff": twin.eff, "obs": twin.observe(await twin.drain())}
+    return res
 
 
 def _render(obs, kind) -> str:
@@ -246,9 +290,39 @@ def oracle(case, res):
         if not selfr:
             if log != puts:
                 yield "iw:own-log-without-self-rule", f"own log {log}, puts {puts}"
-        elif len(selfr) == 1 and selfr[0][2] and case.get("_self_added_on_empty"):
-            if [t for t in log if t[0] == "d"] != data_puts:
+        elif len(selfr) == 1 and case.get("_self_added_on_empty"):
+            # one self rule, installed before any data token: a data token is stored unchanged until the rule's tag
+            # list is complete and replaced by the rule's action from then on; termination tokens pass
+            rule, tags, exp = selfr[0], list(selfr[0][4]), []
+            seen_rule = False
+            for op in eff:
+                if op[0] == "a" and op[1] == "s":
+                    seen_rule = True
+                if op[0] != "p":
+                    continue
+                t = _tok_of(op)
+                if op[1]:
+                    exp.append(t)
+                    continue
+                if not seen_rule:
+                    exp.append(t)
+                    continue
+                if op[2] in tags:
+                    tags.remove(op[2])
+                exp += _act(rule, t) if not tags else [t]
+            if log != exp:
+                first_term = next((i for i, t in enumerate(log) if t[0] == "T"), None)
+                exp_term = next((i for i, t in enumerate(exp) if t[0] == "T"), None)
+                late = first_term is not None and any(t[0] == "d" for t in log[first_term + 1:]) and not (
+                    exp_term is not None and any(t[0] == "d" for t in exp[exp_term + 1:]))
+                key = "iw:data-token-after-termination-token-in-own-log" if late else "iw:own-log-differs-from-self-rule-semantics"
+                yield key, f"own log {log}, expected {exp} (self rule {rule})"
+            if selfr[0][2] and [t for t in log if t[0] == "d"] != data_puts:
                 yield "iw:self-rule-lost-or-duplicated", f"own log {log}, data puts {data_puts}, rule {selfr[0]}"
+        # what disciplined consumers of the port saw: nothing after a termination token
+        for c, v in obs["cons"].items():
+            if case.get("disc") and not v["err"] and any(t[0] == "T" for t in v["recv"][:-1]):
+                yield "port:token-after-termination", f"disciplined consumer {c} of the inter-workflow port received {v['recv']}"
 
 
 def _tok_of(op):
@@ -274,15 +348,35 @@ def _annotate_iw(case, eff):
     case["_self_added_on_empty"] = ok_self
 
 
+def _views(case, res):
+    """(case view, result view) for the main port and, when the history uses it, the second inter-workflow port"""
+    out = [(case, res)]
+    if "twin" in res:
+        out.append(({"kind": "iw", "disc": case.get("disc", False), "ops": [o[1] for o in case["ops"] if o[0] == "b"]}, res["twin"]))
+    return out
+
+
+def evaluate(case, res):
+    """oracle failures and (model line, rendered real observation) pairs for every port of the history"""
+    fails, pairs = [], []
+    for c, r in _views(case, res):
+        c["eff"] = r["eff"]
+        if c["kind"] == "iw":
+            _annotate_iw(c, r["eff"])
+        fails += list(oracle(c, r))
+        pairs.append((model_line(c), _render(r["obs"], c["kind"])))
+    return fails, pairs
+
+
 # ------------------------------------------------------------------------------------------------
 # generators
 # ------------------------------------------------------------------------------------------------
-def _rand_history(rng, kind, n, ncons, wild=False):
+def _rand_history(rng, kind, n, ncons, wild=False, share=False):
     ops = []
     val = 0
     for _ in range(n):
         r = rng.random()
-        if kind == "iw" and r < 0.12 and sum(1 for o in ops if o[0] == "a") < 4:
+        if kind == "iw" and r < 0.12 and sum(1 for o in ops if o[0] in ("a", "b")) < 5:
             nself = sum(1 for o in ops if o[0] == "a" and o[1] == "s")
             if rng.random() < (0.25 if (nself == 0 or wild) else 0.0):
                 tg = "s"
@@ -290,7 +384,25 @@ def _rand_history(rng, kind, n, ncons, wild=False):
                 tg = f"e{rng.randrange(NEXT)}"
             flags = rng.choice([(1, 0), (0, 1), (1, 1), (1, 0), (1, 1)] + ([(0, 0)] if wild else []))
             tags = [rng.randrange(len(TAGS)) for _ in range(rng.choice([0, 1, 1, 2, 2, 3]))]
-            ops.append(["a", tg, flags[0], flags[1], tags])
+            op = ["a", tg, flags[0], flags[1], tags]
+            if share:
+                # the caller re-uses one list object for several calls and / or keeps mutating it afterwards
+                opts = {}
+                if rng.random() < 0.6:
+                    opts["share"] = rng.randrange(2)
+                if rng.random() < 0.5:
+                    opts["mutate"] = rng.choice(["clear", "pop", "append"])
+                if opts:
+                    op.append(opts)
+            if share and rng.random() < 0.4:
+                if op[1] == "s":
+                    op[1] = "e0"
+                ops.append(["b", op])
+            else:
+                ops.append(op)
+        elif kind == "iw" and share and r < 0.2:
+            val += 1
+            ops.append(["b", ["p", 0, rng.randrange(len(TAGS)), val]])
         elif r < 0.45:
             if rng.random() < 0.15:
                 ops.append(["p", 1, 0, rng.choice(STATUSES)])
@@ -321,6 +433,16 @@ CORPUS = [
     {"kind": "iw", "ops": [["a", "e2", 1, 0, [1, 1]], ["p", 0, 1, 1], ["p", 0, 1, 2], ["p", 0, 1, 3]]},         # duplicate tag in the rule
     {"kind": "iw", "ops": [["a", "e0", 1, 0, []], ["p", 0, 0, 1]]},
     {"kind": "iw", "ops": [["a", "s", 1, 0, []], ["a", "s", 1, 0, []], ["p", 0, 1, 1]]},                      # two self rules: duplicate (witness)
+    # one tag list object shared by the rules of two ports: each rule must keep its own copy
+    {"kind": "iw", "ops": [["a", "e0", 1, 0, [1, 2, 3], {"share": 0}], ["b", ["a", "e0", 1, 0, [1, 2, 3], {"share": 0}]],
+                           ["p", 0, 1, 1], ["p", 0, 2, 2], ["b", ["p", 0, 3, 3]], ["p", 0, 3, 4]]},
+    # the caller empties / extends its list after the call
+    {"kind": "iw", "ops": [["a", "e1", 1, 1, [1, 2], {"mutate": "clear"}], ["p", 0, 1, 1], ["p", 0, 2, 2]]},
+    {"kind": "iw", "ops": [["a", "e1", 1, 0, [1], {"mutate": "append"}], ["p", 0, 1, 1], ["p", 0, 2, 2]]},
+    # duplicate tags in a list shared by two rules of the same port
+    {"kind": "iw", "ops": [["a", "e0", 1, 0, [1, 1], {"share": 1}], ["a", "e1", 1, 0, [1, 1], {"share": 1}], ["p", 0, 1, 1], ["p", 0, 1, 2]]},
+    # a satisfied TERMINATE-only self rule replaces the token: nothing may follow the termination token in the own log
+    {"kind": "iw", "disc": True, "ops": [["a", "s", 0, 1, [1]], ["g", 0], ["p", 0, 1, 1], ["g", 0], ["p", 0, 2, 2], ["g", 0]]},
 ]
 
 
@@ -375,7 +497,8 @@ class C03(Property):
         nrand = {"quick": 2500, "thorough": 40000}[ctx.tier] * (3 if ctx.mode == "search" else 1)
         for i in range(nrand):
             kind = rng.choice(["plain", "filter", "iw", "iw"])
-            case = {"kind": kind, "ops": _rand_history(rng, kind, rng.randint(0, 30), rng.randint(1, NCONS), wild=rng.random() < 0.15),
+            case = {"kind": kind, "ops": _rand_history(rng, kind, rng.randint(0, 30), rng.randint(1, NCONS), wild=rng.random() < 0.15,
+                                                      share=kind == "iw" and rng.random() < 0.35),
                     "disc": rng.random() < 0.6}
             if kind == "filter":
                 case["admit"] = sorted(rng.sample(range(len(TAGS)), rng.randint(0, 4)))
@@ -393,6 +516,7 @@ class C03(Property):
         cases = list(self._cases(ctx))
         B = 400
         lines, metas = [], []
+        shrunk_keys: set[str] = set()
         for b0 in range(0, len(cases), B):
             if ctx.out_of_time():
                 ctx.extra["incomplete"] = True
@@ -406,24 +530,31 @@ class C03(Property):
                          {"cases": [c for c, _ in batch][:50], "seed": seed})
                 continue
             for (case, bucket), res in zip(batch, results):
-                case["eff"] = res["eff"]
-                if case["kind"] == "iw":
-                    _annotate_iw(case, res["eff"])
+                fails, pairs = evaluate(case, res)
                 nput = sum(1 for o in res["eff"] if o[0] == "p")
                 nget = sum(1 for o in res["eff"] if o[0] == "g")
-                key = (case["kind"], tuple(_opstr(o) for o in res["eff"]), tuple(case.get("admit", []))) if nput >= 2 and nget >= 1 else None
+                key = (case["kind"], tuple(_opstr(o) for o in case["ops"]), tuple(case.get("admit", [])), case.get("disc")) if nput >= 2 and nget >= 1 else None
                 pub = {k: v for k, v in case.items() if not k.startswith("_") and k != "eff"}
-                ctx.case({"case": pub, "real": _render(res["obs"], case["kind"])}, key, bucket)
-                for fkey, detail in oracle(case, res):
-                    ctx.fail(fkey, detail, self._shrunk(pub, fkey, seed))
-                lines.append(model_line(case))
-                metas.append((pub, _render(res["obs"], case["kind"])))
+                ctx.case({"case": pub, "real": [r for _, r in pairs]}, key, bucket)
+                if "twin" in res:
+                    ctx.count("histories-with-two-inter-workflow-ports")
+                if any(len(o) > 5 for o in case["ops"] if o[0] == "a") or any(len(o[1]) > 5 for o in case["ops"] if o[0] == "b" and o[1][0] == "a"):
+                    ctx.count("histories-with-shared-or-mutated-tag-lists")
+                for fkey, detail in fails:
+                    if fkey not in shrunk_keys:            # one minimised replay per kind of failure is enough
+                        shrunk_keys.add(fkey)
+                        ctx.fail(fkey, detail, self._shrunk(pub, fkey, seed))
+                    else:
+                        ctx.fail(fkey, detail, dict(pub, seed=seed))
+                for line, real in pairs:
+                    lines.append(line)
+                    metas.append((pub, real))
         got = ctx.lean("Drivers/C03.lean", lines)
         ndis = 0
         for g, (pub, real) in zip(got, metas):
             if _normalise_model(g) != _normalise_model(real):
                 ndis += 1
-                if ndis <= 5:
+                if ndis <= 2:
                     pub, real, g = self._shrink_disagreement(ctx, pub, real, g)
                 ctx.disagree(f"model vs real {pub['kind']} port", f"history {[_opstr(o) for o in pub['ops']]}: real {real!r}, Lean model {g!r}", pub)
 
@@ -436,11 +567,7 @@ class C03(Property):
     def _shrunk(self, pub, fkey, seed):
         def fails(ops):
             c = dict(pub, ops=ops)
-            res = self._one(c, seed)
-            c["eff"] = res["eff"]
-            if c["kind"] == "iw":
-                _annotate_iw(c, res["eff"])
-            return any(k == fkey for k, _ in oracle(c, res))
+            return any(k == fkey for k, _ in evaluate(c, self._one(c, seed))[0])
         try:
             ops = ddmin(pub["ops"], fails, budget_s=5, max_tests=120)
         except Exception:  # noqa: BLE001
@@ -452,17 +579,16 @@ class C03(Property):
 
         def fails(ops):
             c = dict(pub, ops=ops)
-            res = self._one(c)
-            c["eff"] = res["eff"]
-            g = ctx.lean("Drivers/C03.lean", [model_line(c)])[0]
-            r = _render(res["obs"], c["kind"])
-            bad = _normalise_model(g) != _normalise_model(r)
-            if bad:
-                last[tuple(map(tuple, map(lambda o: map(str, o), ops)))] = (r, g)
-            return bad
+            _, pairs = evaluate(c, self._one(c))
+            got = ctx.lean("Drivers/C03.lean", [ln for ln, _ in pairs])
+            for g, (_, r) in zip(got, pairs):
+                if _normalise_model(g) != _normalise_model(r):
+                    last[json.dumps(ops)] = (r, g)
+                    return True
+            return False
         try:
-            ops = ddmin(pub["ops"], fails, budget_s=25, max_tests=25)
-            r, g = last.get(tuple(map(tuple, map(lambda o: map(str, o), ops))), (real, model))
+            ops = ddmin(pub["ops"], fails, budget_s=40, max_tests=10)
+            r, g = last.get(json.dumps(ops), (real, model))
             return dict(pub, ops=ops), r, g
         except Exception:  # noqa: BLE001
             return pub, real, model
@@ -473,18 +599,17 @@ class C03(Property):
             return super().replay(ctx, data)
         case = {k: v for k, v in case.items() if k in ("kind", "ops", "admit", "disc")}
         res = self._one(case, data.get("seed", 0) if isinstance(data.get("seed"), int) else 0)
-        case["eff"] = res["eff"]
-        if case["kind"] == "iw":
-            _annotate_iw(case, res["eff"])
-        real = _render(res["obs"], case["kind"])
-        model = ctx.lean("Drivers/C03.lean", [model_line(case)])[0]
-        print("history :", " ".join(_opstr(o) for o in res["eff"]))
-        print("real    :", real)
-        print("model   :", model)
-        for k, d in oracle(case, res):
+        fails, pairs = evaluate(case, res)
+        print("history :", " ".join(_opstr(o) for o in case["ops"]))
+        models = ctx.lean("Drivers/C03.lean", [ln for ln, _ in pairs])
+        for (line, real), model in zip(pairs, models):
+            print("by value:", line)
+            print("real    :", real)
+            print("model   :", model)
+            if _normalise_model(model) != _normalise_model(real):
+                ctx.disagree("model vs real port", f"real {real!r} model {model!r}", case)
+        for k, d in fails:
             ctx.fail(k, d, case)
-        if _normalise_model(model) != _normalise_model(real):
-            ctx.disagree("model vs real port", f"real {real!r} model {model!r}", case)
 
 
 PROPERTY = C03()
